@@ -15,6 +15,7 @@ Decided
       REQUEST, columns read = their positions in the STORED channel row of that spike
   A2  the subset export passes samples and channel rows of the same spikes, channels from each spike's template; get_waveforms reads the
       store when present and otherwise the raw window at spike_samples[spike_ids]; extract_waveforms keeps spike order
+  +   a recognised wrong form of S2: spike i of the chunk extracted on row i of the channel table of ALL spikes (no chunk-local table)
 Not decided: mtscomp's decoder (the chaining of the compressed reader's batch intervals is C16.P2), the sortedness precondition, values.
 """
 import ast
@@ -475,7 +476,22 @@ def s2_iter(ctx):
         'samples and channel rows of a chunk are not selected with the same mask (`%s`)' % (unparse(sc_bad) if sc_bad is not None else ''), 'selection of the samples / channel rows of a chunk not recognised')
     inner = [l for l in ast.walk(lp[0]) if isinstance(l, ast.For) and l is not lp[0] and isinstance(l.iter, ast.Call) and dotted(l.iter.func) == 'enumerate' and l.iter.args and
              isinstance(l.iter.args[0], ast.Name) and l.iter.args[0].id == P.name('V_ss')]
-    if not inner or P.name('V_sc') is None:
+    if inner and P.name('V_sc') is None and isinstance(inner[0].target, ast.Tuple) and len(inner[0].target.elts) == 2:
+        # no chunk-local table of channel rows: a recognised WRONG form is the row of the table of ALL spikes at the chunk-relative index
+        i_ = unparse(inner[0].target.elts[0])
+        calls_ = [c for c in ast.walk(inner[0]) if isinstance(c, ast.Call) and dotted(c.func) == '_extract_waveform']
+        ch_ = (q.kwarg(calls_[0], 'channel_ids') if q.kwarg(calls_[0], 'channel_ids') is not None else (calls_[0].args[2] if len(calls_[0].args) > 2 else None)) if calls_ else None
+        if isinstance(ch_, ast.Name):
+            d_ = [x for x in inner[0].body if isinstance(x, ast.Assign) and isinstance(x.targets[0], ast.Name) and x.targets[0].id == ch_.id]
+            ch_ = d_[0].value if d_ else ch_
+        if ch_ is not None and Pat().any(['%s[%s, :]' % (chn_, i_), '%s[%s]' % (chn_, i_), '%s[%s, ...]' % (chn_, i_)], ch_):
+            ctx.violated('C03.S2', fi, ch_, 'spike i OF THE CHUNK is extracted on `%s`, the channel row of spike i of the WHOLE selection: from the second chunk on every spike gets the channels of '
+                         'another spike' % unparse(ch_))
+        elif ch_ is not None and Pat().any(['%s[%s][%s]' % (chn_, P.name('V_ind'), i_), '%s[%s][%s, :]' % (chn_, P.name('V_ind'), i_), '%s[%s, :][%s]' % (chn_, P.name('V_ind'), i_)], ch_):
+            ctx.holds('C03.S2', fi, 'spike i of the chunk is extracted on its own channel row (row i of the rows selected by the chunk mask)', ch_)
+        else:
+            ctx.undecided('C03.S2', fi, 'per-spike extraction loop `for i, s in enumerate(<samples of the chunk>)` not recognised')
+    elif not inner or P.name('V_sc') is None:
         ctx.undecided('C03.S2', fi, 'per-spike extraction loop `for i, s in enumerate(<samples of the chunk>)` not recognised')
     else:
         il = inner[0]
